@@ -104,7 +104,7 @@ theorem static_ops_eq_script_ops (ctx : Ctx) (h160 : Bytes → Bytes) (n : Ms) (
 
 /- T3 (full statement, not proved): for every well-typed `n` (all fragments, both dialects), with
    `Sat`/`Dsat` extended to every row of BIP379's satisfaction table and `exec` to every op code
-   miniscript emits, `Sound sigOK ctx h160 n`.  T4 (full, not proved): the stack `satisfy` returns
+   miniscript emits, `Sound E ctx h160 n`.  T4 (full, not proved): the stack `satisfy` returns
    is in `Sat`, has at most `max_stack_items` elements / `max_witness_size` bytes, runs within
    `max_ops`, and `satisfy` returns none when the spending condition is false.
    Proved below: T3 over the fragment set
@@ -120,20 +120,20 @@ theorem static_ops_eq_script_ops (ctx : Ctx) (h160 : Bytes → Bytes) (n : Ms) (
     nothing left; "K": a key over a signature that verifies / does not; "W": as "B", next to the
     element on top — in every enclosing executed branch, touching nothing else of the stack, the
     altstack or the branch state. -/
-theorem type_soundness_partial (sigOK : Key → Bytes → Bool) (hsig0 : ∀ k, sigOK k [] = false)
+theorem type_soundness_partial (E : EvalEnv) (hsig0 : ∀ k, E.sigOK k [] = false)
     (ctx : Ctx) (h160 : Bytes → Bytes) (n : Ms) (h : s1Typed ctx n = true) :
-    Sound sigOK ctx h160 n :=
-  sound_s1 sigOK ctx h160 hsig0 n h
+    Sound E ctx h160 n :=
+  sound_s1 E ctx h160 hsig0 n h
 
 /-- T4_partial (validity half, for the tables rather than the chooser): a top-level "B" of S1 run
     on any stack its satisfaction table lists ends with exactly the true value on the stack
     (accepted), and on any listed dissatisfaction with the empty vector (refused). -/
-theorem satisfaction_accepted_partial (sigOK : Key → Bytes → Bool) (hsig0 : ∀ k, sigOK k [] = false)
+theorem satisfaction_accepted_partial (E : EvalEnv) (hsig0 : ∀ k, E.sigOK k [] = false)
     (ctx : Ctx) (h160 : Bytes → Bytes) (n : Ms) (h : s1Typed ctx n = true)
     (hB : (typeOf ctx n).B = true) (s : List Bytes) :
-    (Sat sigOK n s → exec sigOK (opsOf ctx h160 false n) ⟨s, [], []⟩ = some ⟨[[1]], [], []⟩) ∧
-    (Dsat sigOK n s → exec sigOK (opsOf ctx h160 false n) ⟨s, [], []⟩ = some ⟨[[]], [], []⟩) := by
-  obtain ⟨bs, bd, _⟩ := (sound_s1 sigOK ctx h160 hsig0 n h).1 hB
+    (Sat E n s → exec E (opsOf ctx h160 false n) ⟨s, [], []⟩ = some ⟨[[1]], [], []⟩) ∧
+    (Dsat E n s → exec E (opsOf ctx h160 false n) ⟨s, [], []⟩ = some ⟨[[]], [], []⟩) := by
+  obtain ⟨bs, bd, _⟩ := (sound_s1 E ctx h160 hsig0 n h).1 hB
   constructor
   · intro hs; simpa using bs s [] [] [] rfl hs
   · intro hs; simpa using bd s [] [] [] rfl hs
@@ -151,8 +151,8 @@ example :
       s1Typed .tapscript m = true ∧ (typeOf .tapscript m).B = true := by
   decide
 
-example (sigOK : Key → Bytes → Bool) (k : Key) (σ : Bytes) (hσ : sigOK k σ = true) (y : Ms) :
-    Sat sigOK (.bin .or_i (.bin .and_v (.wrap .v (.wrap .c (.pk_k k))) .f1) y) ([1] :: ([σ] ++ [])) :=
+example (E : EvalEnv) (k : Key) (σ : Bytes) (hσ : E.sigOK k σ = true) (y : Ms) :
+    Sat E (.bin .or_i (.bin .and_v (.wrap .v (.wrap .c (.pk_k k))) .f1) y) ([1] :: ([σ] ++ [])) :=
   .or_i_l _ _ _ (.and_v _ _ _ _ (.wrap _ _ _ (.wrap _ _ _ (.pk_k k σ hσ))) .f1)
 
 end Props.C15
